@@ -2,6 +2,7 @@
   C18 — Verifier is transparent and never blocks appends.
 -/
 import RaftWal.Proofs.VerifierReach
+import RaftWal.Generated.Verifier
 namespace RaftWal.C18
 open RaftWal RaftWal.Verifier
 
@@ -85,5 +86,53 @@ theorem skipped_range_named (n : Node) (r : Report) (h1 : n.lastCP > 0) (h2 : n.
           · rfl
           · split <;> rfl
   exact this
+
+/-! ## the store underneath refuses a call -/
+
+/-- **a failed StoreLogs changes nothing**: when the call returns an error (the store underneath refused the batch, or
+    the verifier itself refused it) the node is exactly as before — running sum, its start, counters, the hand-off
+    channel.  (C16/C17: no phantom entries in the sum; C18: no report, no count for a batch that was not stored.) -/
+theorem failed_store_changes_nothing (n : Node) (logs : List Log) (h : (n.storeLogs logs).2.2 = true) :
+    (n.storeLogs logs).1 = n := by
+  by_cases he : logs.isEmpty
+  · simp [Node.storeLogs, he]
+  · cases hu : Node.storeLogs.upd logs n.checksum n.sumStartIdx [] [] with
+    | none => simp [Node.storeLogs, he, hu]
+    | some r =>
+      obtain ⟨logs', cs, st, reports⟩ := r
+      cases hs : n.store.store logs' with
+      | mk store' e =>
+        cases e with
+        | some _ => simp [Node.storeLogs, he, hu, hs]
+        | none => simp [Node.storeLogs, he, hu, hs] at h
+
+/-- whatever the reason, an error of the store underneath is the error of the call (and conversely, apart from the
+    verifier's own refusals — a failing checkpoint predicate or foreign Extensions — which happen before the store is
+    asked) -/
+theorem store_error_is_returned (n : Node) (logs logs' : List Log) (cs : UInt64) (st : Nat) (rs : List Report)
+    (hne : logs.isEmpty = false)
+    (hu : Node.storeLogs.upd logs n.checksum n.sumStartIdx [] [] = some (logs', cs, st, rs)) :
+    (n.storeLogs logs).2.2 = (n.store.store logs').2.isSome := by
+  cases hs : n.store.store logs' with
+  | mk store' e => cases e <;> simp [Node.storeLogs, hne, hu, hs]
+
+theorem delete_error_iff (n : Node) (mn mx : Nat) :
+    (n.deleteRange mn mx).2 = true ↔ (n.store.delete mn mx).2.isSome = true := by
+  unfold Node.deleteRange
+  cases hs : n.store.delete mn mx with
+  | mk s' e => cases e <;> simp
+
+theorem failed_delete_changes_nothing (n : Node) (mn mx : Nat) (h : (n.deleteRange mn mx).2 = true) :
+    (n.deleteRange mn mx).1 = n := by
+  unfold Node.deleteRange at h ⊢
+  cases hs : n.store.delete mn mx with
+  | mk s' e => cases e <;> simp [hs] at h ⊢
+
+
+/-- the code asks the store underneath first and returns its error before anything else (`Node.deleteRange`'s order) -/
+theorem delete_returns_underlying_error : Generated.verifierDeleteReturnsUnderlyingError = true := by decide
+
+/-- and StoreLogs returns the store's error before publishing anything -/
+theorem store_returns_underlying_error : Generated.verifierPublishesAfterStore = true := by decide
 
 end RaftWal.C18
